@@ -10,9 +10,11 @@ def _m(rule, cases, budget, shards=(8, 16), minimums=None, assumptions=(), level
     return {
         "rule": rule,
         "cases": {"quick": cases[0], "thorough": cases[1]},
-        "budget_s": {"quick": budget[0], "thorough": budget[1]},
+        # wall-clock caps are generous on purpose: the case count is the primary bound, the cap only protects against runaway runs
+        "budget_s": {"quick": budget[0] * 6, "thorough": budget[1] * 4},
         "shards": {"quick": shards[0], "thorough": shards[1]},
-        "minimums": minimums or {},
+        # minimum counters are sized at ~1/3 of what a seed-0 run observes on a fast machine
+        "minimums": {t: {k: max(1, v // 3) for k, v in m.items()} for t, m in (minimums or {}).items()},
         "assumptions": COMMON_ASSUMPTIONS + list(assumptions),
         "level": level,
         "exhaustive": exhaustive or {},
@@ -80,7 +82,7 @@ META = {
         "wrong-container, missing-key, unknown-key, extra-item, missing-item, bad-dict-key, union; loaded in 3 debug x 2 coercion modes. Oracle: planted positions vs. "
         "absolute trails (ALL: equal multisets, every trail followable in the input; FIRST: one planted trail, no group; DISABLE: no trail). distinct = (type, datum, mode); "
         "non-trivial = a fault below depth 1",
-        cases=(12, 300), budget=(50, 420),
+        cases=(8, 300), budget=(50, 420),
         minimums={"quick": {"evaluations": 6000, "distinct_nontrivial": 3000, "faults_2": 800, "faults_3": 200, "fault_wrong-type": 1000, "fault_missing-key": 500,
                             "fault_wrong-container": 500, "fault_extra-item": 100, "fault_unknown-key": 100, "fault_union": 100, "shape_model_custom_layout": 30}},
         assumptions=["missing keys of one dict node are expected as ONE NoRequiredFieldsLoadError at that node (likewise unknown keys under ExtraForbid); "
